@@ -87,6 +87,9 @@ def run(prog, chk):
                 l_ = f.nodes[s_.lhs]
                 if l_["k"] == "UnaryOperator" and l_.get("op") == "*" and l_["c"]:
                     zero_at.setdefault(q.no_casts(q.xr(f, l_["c"][0], defs)).strip("()"), []).append(s_.node)
+                elif l_["k"] in ("MemberExpr", "DeclRefExpr") and "*" not in (l_.get("t") or "*"):
+                    # the object itself is zeroed: that is a zero at its address (`_capacity = 0` for the empty window at &_capacity)
+                    zero_at.setdefault("&" + q.no_casts(f.r(s_.lhs)), []).append(s_.node)
                 elif l_["k"] == "ArraySubscriptExpr":
                     zero_at.setdefault("%s + %s" % (q.no_casts(q.xr(f, l_["c"][0], defs)).strip("()"), q.no_casts(q.xr(f, l_["c"][1], defs)).strip("()")), []).append(s_.node)
             for w in writes:
